@@ -285,3 +285,250 @@ func HarnessC01Assign() {
 	vCover("evaluated")
 	checkAgainst(obj, parsed, want, "assign")
 }
+
+// ---- skeletons mixing the other constructs with binary operators ----
+
+type c01Env struct {
+	a, b, c, d int64
+	t, u       bool
+	x0, x1     int64
+	k          int64
+}
+
+func rI(v int64) rv { return rv{kind: rInt, i: v} }
+func rB(v bool) rv  { return rv{kind: rBool, b: v} }
+
+func refAbs(v int64) int64 {
+	if v < 0 {
+		return -v
+	}
+	return v
+}
+
+var c01Skeletons = []struct {
+	src string
+	f   func(e c01Env) rv
+}{
+	{"-a + b", func(e c01Env) rv { return rI(-e.a + e.b) }},
+	{"-a * b", func(e c01Env) rv { return rI(-e.a * e.b) }},
+	{"a - -b", func(e c01Env) rv { return rI(e.a - -e.b) }},
+	{"!t ? a : b", func(e c01Env) rv {
+		if !e.t {
+			return rI(e.a)
+		}
+		return rI(e.b)
+	}},
+	{"t ? a : u ? b : c", func(e c01Env) rv {
+		if e.t {
+			return rI(e.a)
+		}
+		if e.u {
+			return rI(e.b)
+		}
+		return rI(e.c)
+	}},
+	{"t ? a + b : c * d", func(e c01Env) rv {
+		if e.t {
+			return rI(e.a + e.b)
+		}
+		return rI(e.c * e.d)
+	}},
+	{"a + b ? c : d", func(e c01Env) rv {
+		if e.a+e.b != 0 {
+			return rI(e.c)
+		}
+		return rI(e.d)
+	}},
+	{"a < b ? c + d : c - d", func(e c01Env) rv {
+		if e.a < e.b {
+			return rI(e.c + e.d)
+		}
+		return rI(e.c - e.d)
+	}},
+	{"xs[0] + b", func(e c01Env) rv { return rI(e.x0 + e.b) }},
+	{"xs[1] * b + c", func(e c01Env) rv { return rI(e.x1*e.b + e.c) }},
+	{"a - xs[0] * xs[1]", func(e c01Env) rv { return rI(e.a - e.x0*e.x1) }},
+	{"o.k + b", func(e c01Env) rv { return rI(e.k + e.b) }},
+	{"a * o.k - c", func(e c01Env) rv { return rI(e.a*e.k - e.c) }},
+	{"o[\"k\"] * b", func(e c01Env) rv { return rI(e.k * e.b) }},
+	{"a.abs() + b", func(e c01Env) rv {
+		if e.a == -9223372036854775808 {
+			return rv{kind: rUnspec}
+		}
+		return rI(refAbs(e.a) + e.b)
+	}},
+	{"-a.abs()", func(e c01Env) rv {
+		// prefix binds tighter than member access: (-a).abs()
+		if e.a == -9223372036854775808 {
+			return rv{kind: rUnspec}
+		}
+		return rI(refAbs(-e.a))
+	}},
+	{"a++ + b", func(e c01Env) rv { return rI(e.a + 1 + e.b) }},
+	{"a-- * b", func(e c01Env) rv { return rI((e.a - 1) * e.b) }},
+	{"-a++", func(e c01Env) rv { return rI(-(e.a + 1)) }},
+	{"(a + b) * c", func(e c01Env) rv { return rI((e.a + e.b) * e.c) }},
+	{"a * (b + c)", func(e c01Env) rv { return rI(e.a * (e.b + e.c)) }},
+	{"((a)) + (b)", func(e c01Env) rv { return rI(e.a + e.b) }},
+	{"a - (b - (c - d))", func(e c01Env) rv { return rI(e.a - (e.b - (e.c - e.d))) }},
+	{"a + b * c - d", func(e c01Env) rv { return rI(e.a + e.b*e.c - e.d) }},
+	{"a * b + c * d", func(e c01Env) rv { return rI(e.a*e.b + e.c*e.d) }},
+	{"a - b - c - d", func(e c01Env) rv { return rI(e.a - e.b - e.c - e.d) }},
+	{"a + b == c + d", func(e c01Env) rv { return rB(e.a+e.b == e.c+e.d) }},
+	{"a * b < c + d", func(e c01Env) rv { return rB(e.a*e.b < e.c+e.d) }},
+	{"a - b >= c * d", func(e c01Env) rv { return rB(e.a-e.b >= e.c*e.d) }},
+	{"!(a < b) ? c : d", func(e c01Env) rv {
+		if !(e.a < e.b) {
+			return rI(e.c)
+		}
+		return rI(e.d)
+	}},
+	{"a / b * c", func(e c01Env) rv {
+		if e.b == 0 {
+			return rv{kind: rErr}
+		}
+		return rI(e.a / e.b * e.c)
+	}},
+	{"a - b % c", func(e c01Env) rv {
+		if e.c == 0 {
+			return rv{kind: rErr}
+		}
+		return rI(e.a - e.b%e.c)
+	}},
+	{"a + t", func(e c01Env) rv { return rv{kind: rErr} }},
+	{"a + nope", func(e c01Env) rv { return rv{kind: rErr} }},
+	{"nope ? a : b", func(e c01Env) rv { return rv{kind: rErr} }},
+}
+
+// HarnessC01Skeleton: unary, postfix, ternary, index, property access, calls and parentheses mixed with binary
+// operators; all integer operands are unconstrained int64, conditions are symbolic booleans.
+func HarnessC01Skeleton() {
+	sk := c01Skeletons[vChoice("skeleton", len(c01Skeletons))]
+	e := c01Env{a: vInt64("a"), b: vInt64("b"), c: vInt64("c"), d: vInt64("d"), t: vBool("t"), u: vBool("u"),
+		x0: vInt64("x0"), x1: vInt64("x1"), k: vInt64("k")}
+	data := map[string]any{"a": e.a, "b": e.b, "c": e.c, "d": e.d, "t": e.t, "u": e.u,
+		"xs": []any{e.x0, e.x1}, "o": map[string]any{"k": e.k}}
+	want := sk.f(e)
+	obj, parsed := evalLast("{{ "+sk.src+" }}", data)
+	vCover("evaluated")
+	checkAgainst(obj, parsed, want, "skeleton")
+}
+
+var c01Blank = []byte{' ', '\t', '\n', '\r'}
+
+func symGap(label string) string {
+	n := vChoice(label+".n", 2)
+	if n == 0 {
+		return ""
+	}
+	g := vByte(label)
+	vAssume(g == ' ' || g == '\t' || g == '\n' || g == '\r')
+	return string([]byte{g})
+}
+
+// HarnessC01Layout: whitespace, newlines and redundant parentheses never change the result.
+func HarnessC01Layout() {
+	e := c01Env{a: vInt64("a"), b: vInt64("b"), c: vInt64("c")}
+	data := map[string]any{"a": e.a, "b": e.b, "c": e.c}
+	toks := []string{"a", "+", "b", "*", "c"}
+	if vChoice("parens", 2) == 1 {
+		toks = []string{"(", "(", "a", ")", ")", "+", "(", "b", "*", "c", ")"}
+	}
+	src := "{{"
+	for _, t := range toks {
+		src += symGap("gap") + t
+	}
+	src += symGap("gap") + "}}"
+	obj, parsed := evalLast(src, data)
+	vCover("evaluated")
+	checkAgainst(obj, parsed, rI(e.a+e.b*e.c), "layout")
+}
+
+// HarnessC01Float: one binary operator on float64 operands (all values incl. NaN, infinities, -0), additive chains,
+// and mixed integer/float operands.
+func HarnessC01Float() {
+	a, b, c := vFloat64("a"), vFloat64("b"), vFloat64("c")
+	data := map[string]any{"a": a, "b": b, "c": c, "i": vInt64("i")}
+	rF := func(f float64) rv { return rv{kind: rFloat, f: f} }
+	var src string
+	var want rv
+	switch vChoice("shape", 6) {
+	case 0:
+		lx, op := symOperator("op")
+		src = "a " + lx + " b"
+		want = refBin(op, rF(a), rF(b))
+	case 1:
+		src, want = "a + b - c", rF(a+b-c)
+	case 2:
+		src, want = "a - b + c", rF(a-b+c)
+	case 3:
+		src, want = "a - (b - c)", rF(a-(b-c))
+	case 4:
+		src, want = "a + i", rv{kind: rErr}
+	default:
+		src, want = "-a < b", rB(-a < b)
+	}
+	obj, parsed := evalLast("{{ "+src+" }}", data)
+	vCover("evaluated")
+	checkAgainst(obj, parsed, want, "float")
+}
+
+// HarnessC01String: concatenation and (in)equality of strings with symbolic bytes; mixed types fail.
+func HarnessC01String() {
+	a := symBytesAny("a", vChoice("a.len", 3))
+	b := symBytesAny("b", vChoice("b.len", 3))
+	c := symBytesAny("c", 1)
+	data := map[string]any{"a": a, "b": b, "c": c, "i": vInt64("i")}
+	rS := func(s string) rv { return rv{kind: rStr, s: s} }
+	var src string
+	var want rv
+	switch vChoice("shape", 6) {
+	case 0:
+		src, want = "a + b + c", rS(a+b+c)
+	case 1:
+		src, want = "a == b", rB(a == b)
+	case 2:
+		src, want = "a != b", rB(a != b)
+	case 3:
+		src, want = "a + b == c + a", rB(a+b == c+a)
+	case 4:
+		src, want = "a + i", rv{kind: rErr}
+	default:
+		src, want = "a + (b + c)", rS(a+(b+c))
+	}
+	obj, parsed := evalLast("{{ "+src+" }}", data)
+	vCover("evaluated")
+	checkAgainst(obj, parsed, want, "string")
+}
+
+// HarnessC01Literal: integer literals of up to three symbolic digits, and the int64 boundary literals.
+func HarnessC01Literal() {
+	switch vChoice("shape", 5) {
+	case 0:
+		n := 1 + vChoice("digits", 3)
+		var want int64
+		lit := make([]byte, n)
+		for i := range lit {
+			d := vByte("digit")
+			vAssume(d >= '0' && d <= '9')
+			lit[i] = d
+			want = want*10 + int64(d-'0')
+		}
+		obj, parsed := evalLast("{{ "+string(lit)+" + a }}", map[string]any{"a": int64(0)})
+		checkAgainst(obj, parsed, rI(want), "literal")
+	case 1:
+		obj, parsed := evalLast("{{ 9223372036854775807 }}", nil)
+		checkAgainst(obj, parsed, rI(9223372036854775807), "max-literal")
+	case 2:
+		obj, parsed := evalLast("{{ 9223372036854775808 }}", nil)
+		checkAgainst(obj, parsed, rv{kind: rErr}, "out-of-range-literal")
+	case 3:
+		obj, parsed := evalLast("{{ 99999999999999999999 + 1 }}", nil)
+		checkAgainst(obj, parsed, rv{kind: rErr}, "out-of-range-literal")
+	default:
+		a := vInt64("a")
+		obj, parsed := evalLast("{{ 9223372036854775807 + a }}", map[string]any{"a": a})
+		checkAgainst(obj, parsed, rI(9223372036854775807+a), "wrapping-arithmetic")
+	}
+	vCover("evaluated")
+}
